@@ -1014,3 +1014,6 @@ CLAUSES = [
 for _c in CLAUSES:
     _c.layout_twin = True
     _c.strided_twin = True  # and with strided read-only views (engine.call)
+    # repeated calls agree; scribbling over a returned array must not affect later calls (engine.call); the basis-enumeration clauses
+    # make hundreds of calls per case and are left out
+    _c.repeat_twin = _c.name.split(".")[1] not in ('partial', 'linearity', 'rank1', 'large')
